@@ -74,7 +74,7 @@ impl RefSats {
   }
 
   /// Applies one transaction's inputs→outputs FIFO; returns the fee ranges.
-  fn apply_tx(&mut self, tx: &Transaction, input_ranges: Vec<Range>) -> Vec<Range> {
+  pub fn apply_tx(&mut self, tx: &Transaction, input_ranges: Vec<Range>) -> Vec<Range> {
     let txid = tx.compute_txid();
     let mut queue: std::collections::VecDeque<Range> = input_ranges.into();
     for (vout, output) in tx.output.iter().enumerate() {
@@ -90,23 +90,34 @@ impl RefSats {
     queue.into()
   }
 
-  pub fn apply_block(&mut self, block: &Block) {
-    let height = self.height;
-    let mut coinbase_inputs: Vec<Range> = Vec::new();
-    let s = subsidy(height);
-    if s > 0 {
-      let start = first_sat(height);
-      coinbase_inputs.push((start, start + s));
-    }
-    for tx in block.txdata.iter().skip(1) {
-      let mut inputs = Vec::new();
-      for input in &tx.input {
-        let ranges = self
+  /// Removes the inputs of `tx` from the unspent set; returns their ranges
+  /// per input.
+  pub fn take_inputs(&mut self, tx: &Transaction) -> Vec<Vec<Range>> {
+    tx.input
+      .iter()
+      .map(|input| {
+        self
           .utxo
           .remove(&input.previous_output)
-          .unwrap_or_else(|| panic!("model: input {} not unspent", input.previous_output));
-        inputs.extend(ranges);
-      }
+          .unwrap_or_else(|| panic!("model: input {} not unspent", input.previous_output))
+      })
+      .collect()
+  }
+
+  pub fn subsidy_range(&self) -> Vec<Range> {
+    let s = subsidy(self.height);
+    if s > 0 {
+      let start = first_sat(self.height);
+      vec![(start, start + s)]
+    } else {
+      Vec::new()
+    }
+  }
+
+  pub fn apply_block(&mut self, block: &Block) {
+    let mut coinbase_inputs: Vec<Range> = self.subsidy_range();
+    for tx in block.txdata.iter().skip(1) {
+      let inputs = self.take_inputs(tx).concat();
       let fee = self.apply_tx(tx, inputs);
       coinbase_inputs.extend(fee);
     }
